@@ -162,8 +162,14 @@ impl Property for C10 {
         let m128 = sc.get("m128") != 0;
         let img = sc.ops.iter().find(|o| o.k == "tape").map(|o| o.b.clone()).unwrap_or_default();
         let (blocks, tail) = tape::tap_blocks(&img);
-        let cfg = MCfg { m128, fastload: true, ..Default::default() };
+        // fast loading enabled in the settings or switched on afterwards through the setter
+        let late = sc.get("mem_seed") & 1 == 1;
+        let cfg = MCfg { m128, fastload: !late, ..Default::default() };
         let mut e = new_emu(&cfg);
+        if late {
+            e.set_fast_load(true);
+        }
+        let cfg = MCfg { m128, fastload: true, ..Default::default() };
         let machine = if m128 { "128k" } else { "48k" };
         let mut rng = Rng::new(sc.get("mem_seed") as u64);
         for p in 0..ram_pages(m128) {
